@@ -10,7 +10,7 @@ use vbase::{ensure, fail};
 
 use crate::lazyhelp::{gen_skip_stress, to_pointer};
 
-pub const RULE: &str = "cases are (input bytes, path set) pairs: the paths are valid paths of a generated well-formed document (plus fixed short paths), the input is that document after one or two random mutations (truncation, substitution, insertion, deletion, duplication, UTF-8 damage, escape damage, number damage, separator damage), or — in the sweeps — every truncation, every per-position substitution by each of 23 bytes and every deletion of a set of documents. Each pair goes through checked get over &[u8]/&str/&Bytes/&FastStr and get_from_*, get_many, get_by_schema, to_array_iter and to_object_iter. Whenever a value is returned its raw text must lie inside the input, be UTF-8, be exactly one well-formed JSON value without surrounding whitespace, and input[..end of value] must be a prefix of a well-formed UTF-8 JSON text (so every member, key and separator traversed before it was well-formed). Non-trivial = malformed input with a path of length >= 1; distinct by (input, path).";
+pub const RULE: &str = "cases are (input bytes, path set) pairs: the paths are valid paths of a generated well-formed document (plus fixed short paths), the input is that document after one or two random mutations (truncation, substitution, insertion, deletion, duplication, UTF-8 damage, escape damage, number damage, separator damage), or — in the sweeps — every truncation, every per-position substitution by each of 23 bytes and every deletion of a set of documents; long number literals (1..=200 integer digits x fraction lengths) with every tail of a damage set as skipped and as returned member; strings and keys carrying invalid UTF-8 at varying distance from the start. Each pair goes through checked get over &[u8]/&str/&Bytes/&FastStr and get_from_*, get_many, get_by_schema, to_array_iter and to_object_iter over &[u8]/&str/&String/&Bytes/&FastStr. Whenever a value is returned its raw text must lie inside the input, be UTF-8, be exactly one well-formed JSON value without surrounding whitespace, and input[..end of value] must be a prefix of a well-formed UTF-8 JSON text (so every member, key and separator traversed before it was well-formed). Non-trivial = malformed input with a path of length >= 1; distinct by (input, path).";
 pub const ASSUMPTIONS: &[&str] = &["refjson scanner and prefix rule", "bytes after the returned value are not required to be valid (statement)"];
 
 fn split_case(case: &[u8]) -> Option<(&[u8], &[u8])> {
@@ -205,6 +205,45 @@ pub fn oracle(case: &[u8], obs: &mut Obs) -> Result<(), Fail> {
         }
     }
 
+    // checked iterators over the owning / string carriers as well
+    {
+        let fs = s.map(FastStr::new);
+        let string = s.map(|x| x.to_string());
+        let mut run_arr = |api: &str, it: &mut dyn Iterator<Item = sonic_rs::Result<LazyValue>>| -> Result<(), Fail> {
+            for (n, item) in it.enumerate().take(10_000) {
+                match item {
+                    Ok(lv) => check_fragment(api, input, lv.as_raw_str().as_bytes(), None, &format!("item {}", n + 1))?,
+                    Err(_) => break,
+                }
+            }
+            Ok(())
+        };
+        run_arr("to_array_iter(&Bytes)", &mut sonic_rs::to_array_iter(&by))?;
+        if let (Some(s), Some(fs), Some(string)) = (s, &fs, &string) {
+            run_arr("to_array_iter(&str)", &mut sonic_rs::to_array_iter(s))?;
+            run_arr("to_array_iter(&FastStr)", &mut sonic_rs::to_array_iter(fs))?;
+            run_arr("to_array_iter(&String)", &mut sonic_rs::to_array_iter(string))?;
+        }
+        let mut run_obj = |api: &str, it: &mut dyn Iterator<Item = sonic_rs::Result<(std::borrow::Cow<str>, LazyValue)>>| -> Result<(), Fail> {
+            for (n, item) in it.enumerate().take(10_000) {
+                match item {
+                    Ok((k, lv)) => {
+                        ensure!(std::str::from_utf8(k.as_bytes()).is_ok(), "C14/iter/fragment-not-utf8", "{api} member {} on {:?}: the key is not valid UTF-8: {:?}", n + 1, show_bytes(input, 300), show_bytes(k.as_bytes(), 100));
+                        check_fragment(api, input, lv.as_raw_str().as_bytes(), None, &format!("member {}", n + 1))?
+                    }
+                    Err(_) => break,
+                }
+            }
+            Ok(())
+        };
+        run_obj("to_object_iter(&Bytes)", &mut sonic_rs::to_object_iter(&by))?;
+        if let (Some(s), Some(fs), Some(string)) = (s, &fs, &string) {
+            run_obj("to_object_iter(&str)", &mut sonic_rs::to_object_iter(s))?;
+            run_obj("to_object_iter(&FastStr)", &mut sonic_rs::to_object_iter(fs))?;
+            run_obj("to_object_iter(&String)", &mut sonic_rs::to_object_iter(string))?;
+        }
+    }
+
     // checked iterators: every item is a sound fragment
     let mut n = 0;
     for item in sonic_rs::to_array_iter(input) {
@@ -271,7 +310,7 @@ pub fn oracle_raw(case: &[u8], obs: &mut Obs) -> Result<(), Fail> {
 }
 
 pub fn subs() -> Vec<Sub<'static>> {
-    let mut v: Vec<Sub<'static>> = ["mutated", "sweep"].iter().map(|n| Sub { name: n, oracle: &oracle, minimise_bytes: false }).collect();
+    let mut v: Vec<Sub<'static>> = ["mutated", "sweep", "long-numbers", "utf8-in-strings"].iter().map(|n| Sub { name: n, oracle: &oracle, minimise_bytes: false }).collect();
     v.push(Sub { name: "fuzz-inputs", oracle: &oracle_raw, minimise_bytes: true });
     v
 }
@@ -314,6 +353,83 @@ pub fn run(ctx: &Ctx) {
             join_case(&m, &paths)
         });
     }
+    // long number literals x damage tails, as skipped and as returned member (scanner states at every
+    // position of a 32-byte block)
+    let max_int = ctx.n(100, 200);
+    ctx.sweep(&subs[2], true, &|shard, n, emit| {
+        const TAILS: &[&str] = &[".5.5", ".5e5e5", ".5e5.5", "e5.5", "E+5+", "e", "e+", ".", "..5", ".e5", ".5e", "-", ".5-", "e5-", ".5x", "x", ".5.", "e5e", ".-5", "e.5", ".5ee5", "e--5", "", ".5", "e5"];
+        let paths = vec![vec![PathElem::Idx(0)], vec![PathElem::Idx(1)], vec![PathElem::Key("k".into())], vec![PathElem::Key("j".into())]];
+        let mut k = 0usize;
+        for int_len in 1..=max_int {
+            for fl in [0usize, 1, 2, 30, 31, 32, 33] {
+                k += 1;
+                if k % n != shard {
+                    continue;
+                }
+                for neg in [false, true] {
+                    let mut num = String::new();
+                    if neg {
+                        num.push('-');
+                    }
+                    for i in 0..int_len {
+                        num.push((b'1' + (i % 9) as u8) as char);
+                    }
+                    if fl > 0 {
+                        num.push('.');
+                        for i in 0..fl {
+                            num.push((b'0' + (i % 10) as u8) as char);
+                        }
+                    }
+                    for t in TAILS {
+                        if fl > 0 && t.starts_with('.') {
+                            continue;
+                        }
+                        let a = format!("[{num}{t},\"0123456789012345678901234567890123456789\"]");
+                        let o = format!("{{\"k\":{num}{t},\"j\":\"0123456789012345678901234567890123456789\"}}");
+                        if !(emit(&join_case(a.as_bytes(), &paths)) && emit(&join_case(o.as_bytes(), &paths))) {
+                            return;
+                        }
+                    }
+                }
+            }
+        }
+    });
+    // invalid UTF-8 inside otherwise well-formed strings and keys, at varying distance from the start
+    ctx.search(&subs[3], "utf8-in-strings", ctx.n(60_000, 600_000), 300, &|src: &mut Src| {
+        let pad = *src.pick(&[0usize, 1, 10, 30, 31, 32, 33, 60, 64, 100]);
+        let bad: &[u8] = *src.pick(gens::UTF8_DAMAGE);
+        let mut lit = vec![b'"'];
+        lit.resize(1 + pad, b'a');
+        lit.extend_from_slice(bad);
+        let tail = src.below(40);
+        lit.resize(lit.len() + tail, b'b');
+        lit.push(b'"');
+        let mut d = Vec::new();
+        match src.below(4) {
+            0 => {
+                d.push(b'[');
+                d.extend_from_slice(&lit);
+                d.extend_from_slice(b",1,\"x\"]");
+            }
+            1 => {
+                d.extend_from_slice(b"[1,");
+                d.extend_from_slice(&lit);
+                d.extend_from_slice(b",2]");
+            }
+            2 => {
+                d.extend_from_slice(b"{\"k\":");
+                d.extend_from_slice(&lit);
+                d.extend_from_slice(b",\"j\":1}");
+            }
+            _ => {
+                d.push(b'{');
+                d.extend_from_slice(&lit);
+                d.extend_from_slice(b":1,\"j\":[2]}");
+            }
+        }
+        let paths = vec![vec![PathElem::Idx(0)], vec![PathElem::Idx(1)], vec![PathElem::Idx(2)], vec![PathElem::Key("k".into())], vec![PathElem::Key("j".into())]];
+        join_case(&d, &paths)
+    });
     // systematic sweeps
     let ndocs = ctx.n(60, 600);
     let seed = ctx.seed;
